@@ -1,8 +1,9 @@
 import RichModel.Drv.Proto
-/- Driver handlers for property C07 (stub: filled in when the model is built). -/
+import RichModel.Drv.Ratio
+/- Driver handlers for property C07 (tables): the width arithmetic for now; the table renderer is added by the layout builder. -/
 namespace RichModel.Drv.C07
 open RichModel RichModel.Proto
 
-def handlers : List (String × (List String → String)) := []
+def handlers : List (String × (List String → String)) := Drv.Ratio.handlers
 
 end RichModel.Drv.C07
